@@ -644,6 +644,18 @@ class Repo:
                 raise FoldRaised("%s: %s" % (type(e).__name__, ast.unparse(node)[:80]))
             except TypeError as e:
                 raise AnalysisError("cannot fold %s: %s" % (ast.unparse(node)[:80], e))
+        if isinstance(node, (ast.ListComp, ast.GeneratorExp, ast.SetComp)) and len(node.generators) == 1 and isinstance(node.generators[0].target, ast.Name):
+            g = node.generators[0]
+            seq = F(g.iter)
+            if not isinstance(seq, (list, tuple, range)) or len(seq) > 100000:
+                raise AnalysisError("cannot fold %s" % ast.unparse(node)[:80])
+            out_l = []
+            for v in seq:
+                env2 = dict(env)
+                env2[g.target.id] = v
+                if all(self.fold(c, m, func, env2) for c in g.ifs):
+                    out_l.append(self.fold(node.elt, m, func, env2))
+            return set(out_l) if isinstance(node, ast.SetComp) else out_l
         if isinstance(node, ast.IfExp):
             return F(node.body) if F(node.test) else F(node.orelse)
         if isinstance(node, ast.JoinedStr):
@@ -696,6 +708,11 @@ class Repo:
                     return (min if fn.id == "min" else max)(*args)
                 if fn.id == "len" and len(args) == 1:
                     return len(args[0])
+                if fn.id == "range" and 1 <= len(args) <= 3 and all(isinstance(a, int) for a in args):
+                    r_ = range(*args)
+                    if len(r_) > 100000:
+                        raise AnalysisError("range too large")
+                    return r_
                 if fn.id in ("list", "tuple", "sorted", "set", "frozenset") and len(args) == 1:
                     return {"list": list, "tuple": tuple, "sorted": sorted, "set": set, "frozenset": frozenset}[fn.id](args[0])
                 if fn.id == "bytes" and len(args) == 1 and isinstance(args[0], (int, list, tuple)):
